@@ -150,7 +150,8 @@ type Op struct {
 	Piece string `json:"piece,omitempty"`
 	Off   string `json:"off,omitempty"` // resume offset mode: "size", "-1", "wrong", "zero", "num" (explicit N)
 	N     int64  `json:"n,omitempty"`
-	W     int    `json:"w,omitempty"` // writer slot: which BlobWriter value of the session is used (0 = the only one, sequential histories)
+	Ctx   string `json:"ctx,omitempty"` // "done": the call is made with a context that is already cancelled
+	W     int    `json:"w,omitempty"`   // writer slot: which BlobWriter value of the session is used (0 = the only one, sequential histories)
 }
 
 // via names the writer slot when it is not the session's first writer value.
@@ -173,6 +174,9 @@ func (o Op) String() string {
 		}
 		return s + ")"
 	case "PushManifest":
+		if o.Ctx == "done" {
+			return fmt.Sprintf("PushManifest(%s,tag=%q,m%d,context-already-cancelled)", o.Repo, o.Tag, o.M)
+		}
 		return fmt.Sprintf("PushManifest(%s,tag=%q,m%d)", o.Repo, o.Tag, o.M)
 	case "Mount":
 		return fmt.Sprintf("Mount(%s->%s,b%d)", o.From, o.Repo, o.B)
@@ -245,6 +249,9 @@ type alphabetConfig struct {
 	// opened for an offset the session has since left must be refused (direct stacks only: over
 	// HTTP a writer value keeps its own offset and the registry cannot tell stale from current)
 	TwoHandles bool
+	// DoneCtx: tagged pushes are also made with an already-cancelled context (such a call may fail where it
+	// would have succeeded; it may not succeed where it must fail)
+	DoneCtx bool
 }
 
 // staticOps lists the non-upload operations, simplest first.
@@ -288,6 +295,9 @@ func (u *universe) staticOps(c alphabetConfig) []Op {
 		for _, m := range c.Manifests {
 			for _, t := range tags {
 				ops = append(ops, Op{K: "PushManifest", Repo: r, M: m, Tag: t})
+				if c.DoneCtx && r == repos[0] {
+					ops = append(ops, Op{K: "PushManifest", Repo: r, M: m, Tag: t, Ctx: "done"})
+				}
 			}
 			if c.UntaggedToo {
 				ops = append(ops, Op{K: "PushManifest", Repo: r, M: m})
